@@ -43,8 +43,7 @@ def lbasis_history_config(h, spec, shared_rows):
     from checks.c09 import nbfun
     N = nbfun(e)
     h.sample(dict(element=spec, history=['lbasis(X1, i) for all i', 'lbasis(X2, i)'], shared_coordinate_rows=list(shared_rows)))
-    for i in range(N):
-        e.lbasis(X1, i)
+    first = [e.lbasis(X1, i) for i in range(N)]          # the arrays handed out by the first round are kept (as a basis object would)
     snapX2 = np.array(X2, copy=True)
     for i in range(N):
         got = e.lbasis(X2, i)
@@ -52,6 +51,11 @@ def lbasis_history_config(h, spec, shared_rows):
         h.equal('value[%d] after the history == on a fresh element' % i, np.asarray(got[0]), np.asarray(fresh[0]))
         h.equal('derivative[%d] after the history == on a fresh element' % i, np.asarray(got[1]), np.asarray(fresh[1]))
     h.concrete('argument array unchanged', same_terms(h, X2, snapX2))
+    ref = make_elem(spec)
+    for i in range(N):
+        want = ref.lbasis(np.array(X1, copy=True), i)
+        h.equal('value[%d] returned by the FIRST round is still the value at X1 after the later calls' % i, np.asarray(first[i][0]), np.asarray(want[0]))
+        h.equal('derivative[%d] returned by the first round is still the derivative at X1' % i, np.asarray(first[i][1]), np.asarray(want[1]))
 
 
 def global_reuse_config(h, spec, same_size=True):
@@ -243,6 +247,75 @@ def basis_history_config(h, mesh, spec):
         h.equal('interpolate(y) after the history == fresh', np.asarray(b.interpolate(y).value), np.asarray(b2.interpolate(y).value))
 
 
+def shared_element_config(h, mesh, spec, kinds):
+    """ONE element object serves two bases with equally many but different quadrature points (two facet bases on different
+    boundary parts / two cell bases with different rules); the basis built FIRST is used afterwards and compared with fresh objects."""
+    import skfem as S
+    with warnings.catch_warnings():
+        warnings.simplefilter('ignore')
+        m = make_mesh(h, mesh, free=[3] if mesh in ('tri2', 'quad2') else ('none' if 'heron' in mesh else None))
+        e = make_elem(spec)
+        dt = object if h.sym_mode else np.float64
+
+        def build(elem):
+            if kinds == 'two-rules':
+                n = 2
+                X1 = np.array([[0.25, 0.75]] * elem.refdom.dim()) if elem.refdom.dim() == 1 else np.array([[0.25, 0.5], [0.25, 0.25]])
+                X2 = np.array([[0.125, 0.625]] * elem.refdom.dim()) if elem.refdom.dim() == 1 else np.array([[0.125, 0.625], [0.375, 0.125]])
+                W = np.full(n, (1.0 if elem.refdom.dim() == 1 else 0.5) / n)
+                return (lambda: S.CellBasis(m, elem, quadrature=(X1, W))), (lambda: S.CellBasis(m, elem, quadrature=(X2, W)))
+            bf = m.boundary_facets()
+            return (lambda: S.FacetBasis(m, elem, facets=bf[:1])), (lambda: S.FacetBasis(m, elem, facets=bf[-1:]))
+        mk1, mk2 = build(e)
+        b1 = mk1()
+        N = int(b1.N)
+        y = h.sym('y', (N,), nominal=(np.arange(N) * 5 % 7) - 2.5)
+        b2 = mk2()                                         # later use of the shared element object
+        fn = lambda u, v, w: u * v + u.grad[0] * v
+        (r1, c1), d1, _, _ = S.BilinearForm(fn, dtype=dt)._assemble(b1)
+        f1, _ = build(make_elem(spec))
+        bf1 = f1()
+        (r2, c2), d2, _, _ = S.BilinearForm(fn, dtype=dt)._assemble(bf1)
+        h.sample(dict(mesh=mesh, element=spec, history=['basis 1 (shared element)', 'basis 2 (same element object, other points, equal count)', 'assemble/interpolate with basis 1']))
+        h.concrete('same triplet indices', np.array_equal(r1, r2) and np.array_equal(c1, c2))
+        h.equal('assembly on basis 1 after basis 2 was built from the same element object == fresh', np.asarray(d1), np.asarray(d2))
+        h.equal('interpolate on basis 1 == fresh', np.asarray(b1.interpolate(y).value), np.asarray(bf1.interpolate(y).value))
+        (r3, c3), d3, _, _ = S.BilinearForm(fn, dtype=dt)._assemble(b2)
+        _, f2 = build(make_elem(spec))
+        (r4, c4), d4, _, _ = S.BilinearForm(fn, dtype=dt)._assemble(f2())
+        h.equal('assembly on basis 2 == fresh', np.asarray(d3), np.asarray(d4))
+
+
+def solve_operands_config(h, kind):
+    """solve_linear(A, b, x, I) with a spy in place of the numerical routine: the expanded solution is x with the reduced solution
+    scattered into it, the operand x is unchanged, and a SECOND solve of the same system returns the same."""
+    import skfem.utils as U
+    n = 4
+    x = h.sym('x', (n,), nominal=np.array([0.5, -1.25, 2.0, 0.75]))
+    sol = h.sym('s', (2,), nominal=np.array([1.5, -0.5]))
+    g = h.sym('g', (), nominal=0.375)
+    b = np.zeros(2)
+    A = object()
+    spy = lambda A_, b_, **kw: np.array(sol, copy=True)
+    snap = np.array(x, copy=True)
+    if kind == 'index':
+        I = np.array([2, 0])
+        want = np.array([sol[1], x[1], sol[0], x[3]], dtype=object if h.sym_mode else float)
+    else:
+        # the shape produced by mpc(): (permutation, expansion of the reduced solution); the slave value is T x_master + g
+        I = (np.array([2, 0, 3]), lambda r: np.concatenate((r, np.array([2 * r[1] + g]))))
+        want = np.array([x[0] + sol[1], x[1], x[2] + sol[0], x[3] + 2 * sol[1] + g], dtype=object if h.sym_mode else float)
+    h.sample(dict(I=kind, history=['solve(A, b, x, I)', 'solve(A, b, x, I) again']))
+    y1 = U.solve_linear(A, b, x, I, solver=spy)
+    y1_snap = np.array(y1, copy=True)
+    h.concrete('operand x unchanged by the first solve', same_terms(h, x, snap))
+    y2 = U.solve_linear(A, b, x, I, solver=spy)
+    h.concrete('operand x unchanged by the second solve', same_terms(h, x, snap))
+    h.concrete('first result not modified by the second solve', same_terms(h, y1, y1_snap))
+    h.equal('first solve == x with the reduced solution expanded into it', np.asarray(y1), want)
+    h.equal('second solve == first solve', np.asarray(y2), want)
+
+
 def build_configs(tier, seed):
     quick = tier == 'quick'
     cfgs = []
@@ -270,6 +343,12 @@ def build_configs(tier, seed):
         add('tags/%s' % mesh, tags_config, mesh=mesh)
     add('basis-history/tri2/ElementTriP2', basis_history_config, mesh='tri2', spec='ElementTriP2')
     add('basis-history/line3perm/ElementLinePp(3)', basis_history_config, mesh='line3perm', spec='ElementLinePp(3)')
+    for mesh, spec, kinds in [('line3perm', 'ElementLinePp(3)', 'two-facets'), ('line3perm', 'ElementLinePp(2)', 'two-rules'),
+                              ('line3perm', 'ElementLineP2', 'two-facets'), ('tri2', 'ElementTriP2', 'two-rules'),
+                              ('quad2', 'ElementQuadP(2)', 'two-rules'), ('tri2heron', 'ElementTriMorley', 'two-rules')]:
+        add('shared-element/%s/%s/%s' % (mesh, spec, kinds), shared_element_config, mesh=mesh, spec=spec, kinds=kinds, timeout=900)
+    for kind in ('index', 'mpc-tuple'):
+        add('solve-operands/%s' % kind, solve_operands_config, kind=kind)
     return cfgs
 
 
